@@ -132,11 +132,15 @@ def totalsOK (g : Ghost) (r : Resp) : Bool :=
   between (lower g (.cat 5)) r.numReplacedParental (upper g (.cat 5))
 
 /-- Hourly series: slot `i` of `len` is hour `now - (len - 1 - i)`; every slot
-carries the queries counted in that hour. -/
+carries the queries counted in that hour (`xs` = the slots from `i` on). -/
+def slotsFrom (g : Ghost) (sel : Sel) (len : Nat) : List Nat → Nat → Bool
+  | [], _ => true
+  | x :: xs, i =>
+    between (lowerAt g (g.now + 1 + i - len) sel) x (upperAt g (g.now + 1 + i - len) sel) &&
+      slotsFrom g sel len xs (i + 1)
+
 def slotsOK (g : Ghost) (sel : Sel) (series : List Nat) : Bool :=
-  (List.range series.length).all fun i =>
-    between (lowerAt g (g.now + 1 + i - series.length) sel) (series.getD i 0)
-            (upperAt g (g.now + 1 + i - series.length) sel)
+  slotsFrom g sel series.length series 0
 
 /-- One series against its total. -/
 def seriesOK (g : Ghost) (days : Bool) (sel : Sel) (series : List Nat) (total : Nat) : Bool :=
@@ -172,6 +176,22 @@ def specWhy (g : Ghost) (out : Except Fault Resp) : String :=
     else "hour-slot"
 
 def ghostRun (g : Ghost) (ops : List Op) : Ghost := ops.foldl ghostStep g
+
+/-- The operation leaves the retention limit at `L` hours (updates, hour
+advances, clears and reads always do; restarts and configuration requests do
+when they are rejected or ask for `L` hours again). -/
+def keepsLimit (L : Nat) : Op → Prop
+  | .upd _ _ => True
+  | .tick _ => True
+  | .restart _ l _ => l / msPerHour = L
+  | .setDays d => (d = 1 ∨ d = 7 ∨ d = 30 ∨ d = 90) → d * 24 = L
+  | .putConf ms _ => okIvl ms = true → ms / msPerHour = L
+  | .clear => True
+  | .read => True
+
+/-- No counted query whose hour is inside the window now has ever been outside
+the window in force. -/
+def AllKept (g : Ghost) : Prop := ∀ e ∈ g.evs, inWindow g.now g.limit e.hour = true → e.kept = true
 
 def runOps : State → List Op → Option State
   | s, [] => some s
